@@ -4,12 +4,20 @@ import json
 def run(ctx):
     # design-level LLL machine run to completion from every small basis: lattice preserved, potential decreases, terminates, result reduced
     ctx.tlc_mc("MC_LLL", "MC_LLL.thorough.cfg" if ctx.thorough else "MC_LLL.cfg", workers=8, timeout=3000, coverage=False)
+    # A: TLC enumerates every small integer matrix (2x2 entries -3..3, 2x3 / 3x2 entries -1..1; thorough: 2x3 entries -2..2, 3x3 entries -1..1)
+    cfgs = ["2x2v3", "2x3v1", "3x2v1"] + (["2x3v2", "3x3v1"] if ctx.thorough else [])
+    path = ctx.path("gen_all.ndjson")
+    nen = 0
+    with open(path, "w") as f:
+        for c in cfgs:
+            pth, objs = ctx.tlc_gen("Gen_SmallMats", "Gen_SmallMats.%s.cfg" % c, workers=1, out_name="gen_%s.ndjson" % c)
+            f.write(open(pth).read()); nen += len(objs)
     trace = ctx.path("trace.ndjson")
-    summ, _, _ = ctx.yv("c10", "record", "--seed", ctx.seed, "--tier", ctx.tier, "--out", trace, timeout=3000)
+    summ, _, _ = ctx.yv("c10", "record", "--seed", ctx.seed, "--tier", ctx.tier, "--in", path, "--out", trace, timeout=3000)
     rec = summ["record"]
     r = ctx.tlc_trace("Trace_LLL", "Trace_LLL.cfg", trace, timeout=3000)
     ctx.trace_verdict(r, trace, "lll / lll_hnf call")
-    ctx.cov["conformance"].append({"direction": "impl->spec (results)", **rec, "accepted": r["accepted"]})
+    ctx.cov["conformance"].append({"direction": "spec->impl inputs + impl->spec validation (results)", **rec, "accepted": r["accepted"], "tlc_enumerated_matrices": nen})
     # step level (hook H2): every state change of the LLL working data must be a step of LllSteps.tla with det / lambda
     # equal to the Gram data of the current basis
     strace = ctx.path("steps.ndjson")
